@@ -148,6 +148,9 @@ class GhostFS:
         self._after("remove")
 
 
+SHORT_COUNT = object()   # what a raw write returns when it wrote less than asked (stands for an int < len(data))
+
+
 class Handle:
     def __init__(self, gfs, path, mode, kwargs):
         self.gfs, self.path, self.mode, self.kwargs = gfs, path, mode, kwargs
@@ -159,7 +162,16 @@ class Handle:
     def write(self, data):
         g = self.gfs
         f = g.fs.get(self.path)
-        o = g.outcome(3, "write")
+        raw = self.kwargs.get("buffering") == 0
+        o = g.outcome(4 if raw else 3, "write")
+        if raw and o == 3 and f is not None:
+            # an UNBUFFERED file (buffering=0) is a raw FileIO: write() makes one write(2) call and may return a short count WITHOUT raising
+            # (full disk, quota, RLIMIT_FSIZE, > 2 GiB) - a caller that ignores the count has written only part of the value
+            f.chunks = f.chunks + (("partial", data),)
+            f.intact = False
+            f.mtime = g._tick()
+            g._after("write-short-count")
+            return SHORT_COUNT
         if f is None:  # unlinked while open: data goes nowhere visible
             if o:
                 raise FaultOS("write failed")
@@ -295,6 +307,7 @@ def staged_write_path_unit(ctx):
     except BaseException as e:
         if ctx.dead is not None:
             raise ctx.dead
+        ctx.classify(e)
         raised = e
     _final_checks(ctx, gfs, raised)
     return "raises" if raised else "returns"
@@ -326,6 +339,7 @@ def staged_write_unit(ctx):
     except BaseException as e:
         if ctx.dead is not None:
             raise ctx.dead
+        ctx.classify(e)
         raised = e
     _final_checks(ctx, gfs, raised, expect_chunks=(("full", "payload"),))
     return "raises" if raised else "returns"
@@ -355,6 +369,7 @@ def _store_unit(cls):
         except BaseException as e:
             if ctx.dead is not None:
                 raise ctx.dead
+            ctx.classify(e)
             raised = e
         opened = [p for (p, m, kw, t) in gfs.open_log]
         ctx.check(f"{cls}.write/never-opens-the-target-directly", bool(gfs.target not in opened))
@@ -558,7 +573,7 @@ def _replay(ob):
 
     from ujvc.z3env import REPO_SRC
 
-    p = subprocess.run(["/venv/bin/python", "-c", REPLAY_SCRIPT], env=dict(os.environ, PYTHONPATH=REPO_SRC), capture_output=True, text=True, timeout=300)
+    p = __import__('ujvc.units', fromlist=['run_native_p']).run_native_p(["/venv/bin/python", "-c", REPLAY_SCRIPT], env=dict(os.environ, PYTHONPATH=REPO_SRC), timeout=300)
     return {"reproduced": p.returncode == 1, "detail": (p.stdout + p.stderr)[-3000:], "script": REPLAY_SCRIPT}
 
 
